@@ -649,3 +649,38 @@ func genPrecTable(g *gen) {
 
 // operator spellings contain no quote or backslash; use the literal form when possible
 func coqBytesOrStr(s string) string { return coqStr(s) }
+
+// ArithShape.v: whether the arithmetic of render.go normalises the negative zero of binary64
+// (results of - * / % ^ and of the unary minus pass through plusZero). Model/ExprEvalImpl.v follows
+// the flag, so it mirrors the tree with and without that repair.
+func init() { generators = append(generators, genArithShape) }
+
+func genArithShape(g *gen) {
+	count := func(fd *ast.FuncDecl) int {
+		n := 0
+		if fd == nil || fd.Body == nil {
+			return 0
+		}
+		ast.Inspect(fd.Body, func(x ast.Node) bool {
+			if ret, ok := x.(*ast.ReturnStmt); ok && len(ret.Results) >= 1 {
+				if c, ok := ret.Results[0].(*ast.CallExpr); ok {
+					if id, ok := c.Fun.(*ast.Ident); ok && id.Name == "plusZero" {
+						n++
+					}
+				}
+			}
+			return true
+		})
+		return n
+	}
+	helper := g.funcDecl("", "plusZero") != nil
+	bin := count(g.funcDecl("RenderContext", "evaluateBinaryOp"))
+	un := count(g.funcDecl("RenderContext", "EvaluateExpression"))
+	norm := helper && bin >= 5 && un >= 1
+	var b strings.Builder
+	b.WriteString("(* render.go: the results of - * / % ^ (evaluateBinaryOp) and of the unary minus (EvaluateExpression) are returned through plusZero *)\n")
+	fmt.Fprintf(&b, "Definition ar_plus_zero_returns_binary : nat := %d.\nDefinition ar_plus_zero_returns_unary : nat := %d.\n", bin, un)
+	fmt.Fprintf(&b, "Definition ar_negzero_normalised : bool := %v.\n", norm)
+	g.tabs["arith_shape"] = map[string]interface{}{"negzero_normalised": norm, "binary": bin, "unary": un}
+	g.write("ArithShape.v", b.String())
+}
